@@ -433,6 +433,16 @@ class StmtMixin:
             return v if obj.items is not None else zint(v)
         if obj.kind == 'bool':
             return v if obj.items is not None else zbool(truth(v))
+        if obj.kind == 'cset':
+            if obj.items is not None:
+                if not isinstance(v, str):
+                    raise Unsupported('non-string stored into a string array')
+                return v
+            if isinstance(v, str):
+                return cs_of(v)
+            if is_cset(v):
+                return v
+            raise Unsupported('non-string stored into a string array')
         return v
 
     def arr_store(self, obj, idx, v, node, st):
@@ -750,7 +760,7 @@ class StmtMixin:
     def havoc_obj(self, obj, oid):
         if isinstance(obj, RecObj):
             return obj
-        if obj.kind not in ('int', 'val', 'bool'):
+        if obj.kind not in ('int', 'val', 'bool', 'cset'):
             if obj.items is not None and not obj.items:
                 raise Unsupported('loop appends to an empty list of unknown element kind '
                                   '(declare the kind in the contract: ghost kinds)')
